@@ -27,7 +27,9 @@ RULE = ('Hypothesis draws histories of 4-14 steps over long-lived objects: parse
         'REVISION / tables / enumerated type chains, repeat the previous generation on the same tree, compile() a '
         'set with good and bad members on one MibCompiler. Non-trivial: a history with >= 1 failing step followed by '
         '>= 1 successful one, or a module without revisions generated after one with. Hash seeds: 5 (quick) / 24 '
-        '(thorough) PYTHONHASHSEED values x a generated corpus of module sets; each (seed, corpus) digest set is one case.')
+        '(thorough) PYTHONHASHSEED values x a generated corpus of module sets; each (seed, corpus) digest set is one case. '
+        'Histories also present other editions of modules already seen (fixed module names, sequential identifiers), '
+        'modules absent in one step and present in a later one, another template / text filter for one call.')
 ASSUMPTIONS = [
     'fresh instances are the reference: the property is a differential between a used and a brand-new object',
     'a code generator may normalise the tree it is given, but a repeated run on the same tree must give the same output',
